@@ -11,6 +11,7 @@
 package interp
 
 import (
+	"errors"
 	"fmt"
 	"io"
 	"strings"
@@ -58,6 +59,9 @@ var ops = map[int]string{
 	OR_ASSIGN:  "|=",
 }
 
+// errBailout is the panic value used to unwind the lexer goroutine.
+var errBailout = errors.New("bailout")
+
 type lexer struct {
 	env   *ExecEnv
 	r     io.RuneScanner
@@ -102,7 +106,7 @@ func (l *lexer) run() {
 	defer func() {
 		close(l.token)
 
-		if e := recover(); e != nil {
+		if e := recover(); e != nil && e != errBailout {
 			// re-panic
 			panic(e)
 		}
@@ -358,7 +362,7 @@ func (l *lexer) emit(typ int) {
 	case <-l.cancel:
 		// bailout
 		verifPoint(l, EvBail)
-		panic(nil)
+		panic(errBailout)
 	}
 	verifPoint(l, EvSendAfter)
 }
